@@ -115,7 +115,9 @@ C06Prefix(n, b, p) ==
 C06Fault(n, clean, f) ==
     Tri(clean.res.err # "Watchdog" /\ f.res.err # "Watchdog",
         /\ (f.res.ok \/ IsConstructError(f.res.err))
-        /\ NoRecover(n) =>
+        \* (a construct may take a failure of its member for "no match" only when parsing: on build the alternatives are tried on a
+        \* scratch buffer and the chosen bytes are then written to the stream, where a fault is a fault)
+        /\ (NoRecover(n) \/ f.op = "build") =>
               \/ (~f.res.ok /\ f.res.err = "StreamError")
               \/ (f.flt.mode # "raise" /\ f.res.ok = clean.res.ok /\ f.res.err = clean.res.err /\ f.res.v = clean.res.v)
               \* a short read-to-end-of-stream cannot be told from end of stream
@@ -230,6 +232,10 @@ C16History(eager, lz) ==
                           [] lz.kind = "array" -> eager.res.v.xs[h.i]
                           [] OTHER -> eager.res.v
               IN h.ok /\ ValEq(h.v, ev) /\ h.pa = h.pb)
+
+\* the lazy twin inside a surrounding parse: where the eager parse returns, the lazy one returns the same (a member that is skipped by its
+\* size is not validated, so the lazy parse may return where the eager one rejects)
+C16Eager(eager, lz) == Tri(eager.res.ok, lz.res.ok /\ ValEq(eager.res.v, lz.res.v) /\ eager.res.p = lz.res.p)
 
 \* C09  Pointer over another stream (stream=...): that stream is where the member is processed, and it is put back where it stood.
 \* x = [before, after: position of the other stream around the call, at: where the member started on it, want: the target offset]
